@@ -4,7 +4,7 @@ from props import enginecorr, multifield
 MODEL_DEPS = ['CheckLib']
 KERNELS = ('StaticHash', 'StaticGraph', 'StaticEdge', 'FunctionEdge', 'ComputableHashBase', 'IdentityEdge', 'ConstantEdge',
            'CacheEdge', 'ProductEdge', 'HashBarrier', 'SwitchEdge', 'CheckIdsEdge', 'EvictionCache', 'Graph', 'count_entries',
-           'validate_graph')
+           'validate_graph', 'execute')
 TRUSTED = ['Coq 8.16.1 kernel (coqc); vm_compute in case shards and Example witnesses; no native_compute',
            'tools/translate.py (Python ast -> Gallina) for the generator bodies, EvictionCache, Graph.__init__ multiplier',
            'hand-written: the 13 arms of VM.step, count_entries as path counting, the MRO table of Edges.v; tied by the correspondence',
